@@ -7,7 +7,7 @@
 //!   mode ksrace (C12): keyspace create/open/delete racing on the same names
 
 use crate::hooks::tick;
-use crate::lin::{check_key, Kind, OpRec, Verdict};
+use crate::lin::{check_key, check_key_two_instant, Kind, OpRec, Verdict};
 use crate::rng::{mix, Rng};
 use crate::sweep::Deviation;
 use crate::util::{emit, fresh_dir, rm_rf, show, Counts, J};
@@ -69,9 +69,38 @@ fn thread_states() -> String {
     out.join(",")
 }
 
-/// Drops the last database handle on a helper thread; a drop that does not return within the
-/// bound while nothing changes is a progress violation (the process is then re-executed by the
-/// watchdog path because the stuck thread cannot be cancelled).
+/// Sum of user+system CPU ticks of the fjall worker threads, and whether any of them is currently
+/// runnable (state R) or in uninterruptible I/O (state D). Client and dropper threads are left out on
+/// purpose: fjall's stall and drop loops poll with short sleeps, so a stuck caller still uses CPU.
+fn worker_activity() -> (u64, bool) {
+    let mut ticks = 0u64;
+    let mut active = false;
+    if let Ok(rd) = std::fs::read_dir("/proc/self/task") {
+        for e in rd.flatten() {
+            let comm = std::fs::read_to_string(e.path().join("comm")).unwrap_or_default();
+            let comm = comm.trim();
+            if !comm.starts_with("fjall") {
+                continue;
+            }
+            let stat = std::fs::read_to_string(e.path().join("stat")).unwrap_or_default();
+            // fields after the closing parenthesis of comm: state is the 1st, utime the 12th, stime the 13th
+            if let Some(rest) = stat.rsplit_once(')').map(|x| x.1) {
+                let f: Vec<&str> = rest.split_whitespace().collect();
+                if f.first().is_some_and(|s| *s == "R" || *s == "D") {
+                    active = true;
+                }
+                ticks += f.get(11).and_then(|x| x.parse::<u64>().ok()).unwrap_or(0) + f.get(12).and_then(|x| x.parse::<u64>().ok()).unwrap_or(0);
+            }
+        }
+    }
+    (ticks, active)
+}
+
+/// Drops the last database handle on a helper thread. The verdict is not a bare wall-clock deadline:
+/// the drop is a progress violation only if for 30 consecutive seconds no fjall worker thread was
+/// runnable or consumed any CPU time (all asleep or gone: nothing can complete the drop any more); a
+/// drop whose workers are still busy after 120 s is inconclusive (slow machine). The stuck thread cannot
+/// be cancelled, so the process is re-executed by the watchdog path afterwards.
 fn timed_drop(db: Database, what: &str) -> Result<(), Deviation> {
     let pending_before = db.verif_pending_work();
     let (tx, rx) = std::sync::mpsc::channel();
@@ -82,15 +111,33 @@ fn timed_drop(db: Database, what: &str) -> Result<(), Deviation> {
             let _ = tx.send(());
         })
         .expect("spawn");
-    match rx.recv_timeout(std::time::Duration::from_secs(45)) {
-        Ok(()) => Ok(()),
-        Err(_) => Err(Deviation::new(
-            "progress:drop-never-returns",
-            format!(
-                "{what}: dropping the last database handle did not return within 45 s ({pending_before} worker messages were queued); threads: {}",
-                thread_states()
-            ),
-        )),
+    let t0 = std::time::Instant::now();
+    let mut last_activity = std::time::Instant::now();
+    let mut last_ticks = worker_activity().0;
+    loop {
+        match rx.recv_timeout(std::time::Duration::from_millis(250)) {
+            Ok(()) => return Ok(()),
+            Err(std::sync::mpsc::RecvTimeoutError::Disconnected) => return Ok(()),
+            Err(std::sync::mpsc::RecvTimeoutError::Timeout) => {}
+        }
+        let (ticks, active) = worker_activity();
+        if active || ticks != last_ticks {
+            last_ticks = ticks;
+            last_activity = std::time::Instant::now();
+        }
+        if last_activity.elapsed().as_secs() >= 30 {
+            return Err(Deviation::new(
+                "progress:drop-never-returns",
+                format!(
+                    "{what}: dropping the last database handle has not returned after {} s and for the last 30 s no worker thread was runnable or used CPU time ({pending_before} worker messages were queued); threads: {}",
+                    t0.elapsed().as_secs(),
+                    thread_states()
+                ),
+            ));
+        }
+        if t0.elapsed().as_secs() >= 120 {
+            return Err(Deviation::new("inconclusive:slow", format!("{what}: drop still running after 120 s (threads active)")));
+        }
     }
 }
 
@@ -131,6 +178,7 @@ fn lin_case(seed: u64, idx: u64, thorough: bool, stats: &mut Counts) -> Result<S
         let evs: Arc<Mutex<Vec<Ev>>> = Arc::new(Mutex::new(Vec::new()));
         let errors: Arc<Mutex<Vec<String>>> = Arc::new(Mutex::new(Vec::new()));
         let done = Arc::new(AtomicU64::new(0));
+        let scans = Arc::new(AtomicU64::new(0));
         let mut handles = Vec::new();
         for t in 0..threads {
             let kss = kss.clone();
@@ -138,6 +186,7 @@ fn lin_case(seed: u64, idx: u64, thorough: bool, stats: &mut Counts) -> Result<S
             let evs = evs.clone();
             let errors = errors.clone();
             let done = done.clone();
+            let scans = scans.clone();
             let mut r = Rng::new(mix(&[seed, idx, t as u64, 77]));
             handles.push(
                 std::thread::Builder::new()
@@ -184,13 +233,108 @@ fn lin_case(seed: u64, idx: u64, thorough: bool, stats: &mut Counts) -> Result<S
                                     Ok(()) => push((ksi, k), call, ret, Kind::Write(0), 0),
                                     Err(e) => fail("remove", &e),
                                 }
-                            } else if c < 82 {
+                            } else if c < 74 {
                                 let call = tick();
                                 let r0 = ks.get(&kb);
                                 let ret = tick();
                                 match r0 {
                                     Ok(v) => push((ksi, k), call, ret, Kind::ReadExact(v.map_or(0, |v| val_id(&v))), 0),
                                     Err(e) => fail("get", &e),
+                                }
+                            } else if c < 82 {
+                                // scans and first/last/is_empty: every key the call covers is one read of that key
+                                // over the call's interval (a scan reads at one snapshot instant inside it)
+                                let variant = r.below(8);
+                                let a = r.below(u64::from(nkeys)) as u32;
+                                let b2 = r.below(u64::from(nkeys)) as u32;
+                                let (lo, hi) = (a.min(b2), a.max(b2));
+                                let mut seen: BTreeMap<u32, u64> = BTreeMap::new();
+                                let mut covered: Vec<u32> = Vec::new();
+                                let mut failed = false;
+                                let parse = |kb: &[u8]| -> u32 { std::str::from_utf8(&kb[1..]).ok().and_then(|s| s.parse().ok()).unwrap_or(u32::MAX) };
+                                let call = tick();
+                                match variant {
+                                    0 | 1 | 2 | 3 | 4 => {
+                                        let it: Box<dyn DoubleEndedIterator<Item = fjall::Guard>> = match variant {
+                                            0 | 1 => {
+                                                covered = (0..nkeys).collect();
+                                                Box::new(ks.iter())
+                                            }
+                                            2 | 3 => {
+                                                covered = (lo..=hi).collect();
+                                                Box::new(ks.range(key_bytes(lo)..=key_bytes(hi)))
+                                            }
+                                            _ => {
+                                                let dec = a / 10;
+                                                covered = (0..nkeys).filter(|x| x / 10 == dec).collect();
+                                                Box::new(ks.prefix(format!("k{dec:02}")))
+                                            }
+                                        };
+                                        let items: Vec<fjall::Guard> = if variant % 2 == 1 { it.rev().collect() } else { it.collect() };
+                                        for g in items {
+                                            match g.into_inner() {
+                                                Ok((k, v)) => {
+                                                    seen.insert(parse(&k), val_id(&v));
+                                                }
+                                                Err(e) => {
+                                                    fail("scan item", &e);
+                                                    failed = true;
+                                                }
+                                            }
+                                        }
+                                    }
+                                    5 | 6 => {
+                                        let g = if variant == 5 { ks.first_key_value() } else { ks.last_key_value() };
+                                        match g.map(fjall::Guard::into_inner) {
+                                            None => covered = (0..nkeys).collect(),
+                                            Some(Ok((k, v))) => {
+                                                let kk = parse(&k);
+                                                seen.insert(kk, val_id(&v));
+                                                covered = if variant == 5 { (0..=kk.min(nkeys - 1)).collect() } else { (kk.min(nkeys - 1)..nkeys).collect() };
+                                                if kk >= nkeys {
+                                                    covered.push(kk);
+                                                }
+                                            }
+                                            Some(Err(e)) => {
+                                                fail("first/last_key_value", &e);
+                                                failed = true;
+                                            }
+                                        }
+                                    }
+                                    _ => match ks.is_empty() {
+                                        Ok(true) => covered = (0..nkeys).collect(),
+                                        Ok(false) => {}
+                                        Err(e) => {
+                                            fail("is_empty", &e);
+                                            failed = true;
+                                        }
+                                    },
+                                }
+                                let ret = tick();
+                                if !failed {
+                                    for kk in seen.keys() {
+                                        if !covered.contains(kk) {
+                                            errors.lock().unwrap().push(format!("thread {t}: scan variant {variant} returned key k{kk:03} outside its bounds {lo}..={hi}"));
+                                        }
+                                    }
+                                    for kk in covered {
+                                        local.push(Ev {
+                                            key: (ksi, kk),
+                                            rec: OpRec {
+                                                call,
+                                                ret,
+                                                // first/last_key_value and is_empty read at SeqNo::MAX like get; iter/range/prefix at the visible seqno
+                                                kind: if variant >= 5 {
+                                                    Kind::ReadExact(seen.get(&kk).copied().unwrap_or(0))
+                                                } else {
+                                                    Kind::ReadScan(seen.get(&kk).copied().unwrap_or(0))
+                                                },
+                                                thread: t as u32,
+                                                len: 0,
+                                            },
+                                        });
+                                    }
+                                    scans.fetch_add(1, Ordering::Relaxed);
                                 }
                             } else if c < 87 {
                                 let call = tick();
@@ -268,6 +412,7 @@ fn lin_case(seed: u64, idx: u64, thorough: bool, stats: &mut Counts) -> Result<S
         let t0 = std::time::Instant::now();
         let mut last_sig = (0u64, 0usize, 0usize, 0usize, 0u64);
         let mut last_change = std::time::Instant::now();
+        let mut last_ticks = 0u64;
         loop {
             if done.load(Ordering::SeqCst) as usize == threads {
                 break;
@@ -280,8 +425,13 @@ fn lin_case(seed: u64, idx: u64, thorough: bool, stats: &mut Counts) -> Result<S
                 db.compactions_completed(),
                 hooks::CLOCK.load(Ordering::SeqCst),
             );
-            if sig != last_sig {
+            // a stall is "nothing moves": no progress indicator changes (no client operation returned, queue
+            // and counters unchanged) AND no worker thread is runnable or uses CPU time (so that a starved
+            // machine on which the workers are still busy is not mistaken for a stall)
+            let (ticks, active) = worker_activity();
+            if sig != last_sig || active || ticks != last_ticks {
                 last_sig = sig;
+                last_ticks = ticks;
                 last_change = std::time::Instant::now();
             }
             if last_change.elapsed().as_secs() >= 30 {
@@ -348,6 +498,7 @@ fn lin_case(seed: u64, idx: u64, thorough: bool, stats: &mut Counts) -> Result<S
             by_key.entry(e.key).or_default().push(e.rec);
         }
         let mut max_ops = 0;
+        let mut soft: Option<Deviation> = None;
         for (key, ops) in &by_key {
             max_ops = max_ops.max(ops.len());
             stats.add("lin.ops_checked", ops.len() as u64);
@@ -358,6 +509,52 @@ fn lin_case(seed: u64, idx: u64, thorough: bool, stats: &mut Counts) -> Result<S
                     return Err(Deviation::new("inconclusive:checker", reason));
                 }
                 Verdict::NotLinearizable { detail } => {
+                    // Triage against known finding F8 (point reads read at SeqNo::MAX and see a write once it is
+                    // applied; scans read at the visible seqno and see it only once it is published):
+                    //  (1) writes + point reads alone must be linearizable (the strict check as before),
+                    //  (2) writes + scan reads alone must be linearizable,
+                    //  (3) the complete history must be explained by the two-instant model.
+                    let has_scans = ops.iter().any(|o| matches!(o.kind, Kind::ReadScan(_)));
+                    if has_scans {
+                        let points: Vec<OpRec> = ops.iter().filter(|o| !matches!(o.kind, Kind::ReadScan(_))).cloned().collect();
+                        let scans_only: Vec<OpRec> = ops.iter().filter(|o| matches!(o.kind, Kind::Write(_) | Kind::ReadScan(_))).cloned().collect();
+                        let v1 = check_key(&points, &val_len, 3_000_000);
+                        let v2 = check_key(&scans_only, &val_len, 3_000_000);
+                        let v3 = check_key_two_instant(ops, &val_len, 6_000_000);
+                        if let (Verdict::Linearizable, Verdict::Linearizable, Verdict::Linearizable) = (&v1, &v2, &v3) {
+                            stats.inc("lin.keys_explained_by_two_instant_model");
+                            if soft.is_none() {
+                                soft = Some(Deviation::new(
+                                    "known:point-reads-see-unpublished-writes",
+                                    format!(
+                                        "keyspace h{} key k{:03}: point reads alone and scans alone are linearizable, the mixed history is not, and it is explained by point reads seeing a write from its memtable apply and scans from its publish: {detail}",
+                                        key.0, key.1
+                                    ),
+                                ));
+                            }
+                            continue;
+                        }
+                        for v in [&v1, &v2, &v3] {
+                            if let Verdict::Inconclusive { reason } = v {
+                                return Err(Deviation::new("inconclusive:checker", reason.clone()));
+                            }
+                        }
+                        let which = match (&v1, &v2) {
+                            (Verdict::NotLinearizable { .. }, _) => "writes and point reads alone are not linearizable",
+                            (_, Verdict::NotLinearizable { .. }) => "writes and scan reads alone are not linearizable",
+                            _ => "point reads alone and scans alone are linearizable, but the mixed history is not explained by the apply/publish model of known finding F8",
+                        };
+                        let mut dump = String::new();
+                        let mut sorted = ops.clone();
+                        sorted.sort_by_key(|o| o.call);
+                        for o in sorted.iter().rev().take(14).rev() {
+                            dump.push_str(&format!("[t{} {}..{} {:?}] ", o.thread, o.call, o.ret, o.kind));
+                        }
+                        return Err(Deviation::new(
+                            "lin:not-linearizable",
+                            format!("keyspace h{} key k{:03}: {which}; {detail}; last operations: {dump}", key.0, key.1),
+                        ));
+                    }
                     let mut dump = String::new();
                     let mut sorted = ops.clone();
                     sorted.sort_by_key(|o| o.call);
@@ -376,16 +573,26 @@ fn lin_case(seed: u64, idx: u64, thorough: bool, stats: &mut Counts) -> Result<S
             stats.0.insert("lin.max_ops_per_key_seen".to_string(), max_ops as u64);
         }
         stats.inc("lin.histories");
-        Ok(())
+        stats.add("lin.scan_reads", scans.load(Ordering::Relaxed));
+        match soft {
+            Some(d) => Err(d),
+            None => Ok(()),
+        }
         })();
         let (sections, overlaps) = hooks::cs_take();
         stats.add("journal_critical_sections_observed", sections);
+        let is_known = |b: &Result<(), Deviation>| matches!(b, Err(d) if d.sig.starts_with("known:"));
         let body = match (body, overlaps.first()) {
-            (Ok(()), Some(o)) => Err(Deviation::new("lock:journal-critical-sections-overlap", o.clone())),
+            (b, Some(o)) if b.is_ok() || is_known(&b) => Err(Deviation::new("lock:journal-critical-sections-overlap", o.clone())),
             (b, _) => b,
         };
         let dropped = timed_drop(db, "after a linearizability history");
-        body.and(dropped)
+        // a known-class deviation must not hide a failing drop
+        if is_known(&body) && dropped.is_err() {
+            dropped
+        } else {
+            body.and(dropped)
+        }
     })();
     hooks::set_delays(0, 0);
     fjall::verif::set_journal_pos_scale(1);
@@ -1490,7 +1697,7 @@ pub fn main(args: &Args) -> i32 {
     let budget_s = args.u64("budget-s", 0);
     hooks::install();
     hooks::set_counting(true);
-    crate::watchdog::start(args.u64("case-timeout-s", 200));
+    crate::watchdog::start(args.u64("case-timeout-s", 400));
     let t0 = std::time::Instant::now();
     let mut total = Counts::default();
     let mut violations = 0;
